@@ -46,6 +46,8 @@ class Conn:
         self.rec.log("recv", i)
         if i < len(self.frames):
             return self.frames[i]
+        if getattr(self, "linger", 0):
+            await asyncio.sleep(self.linger)      # the connection stays open for a while before it breaks
         raise self.recv_exc
 
 
@@ -81,7 +83,7 @@ def _raise_for(out):
         raise cls(description=out[2], details=copy.deepcopy(out[3]))
     if kind == "other":
         exc = {"RuntimeError": RuntimeError, "ValueError": ValueError, "KeyError": KeyError,
-               "ZeroDivisionError": ZeroDivisionError, "SecretError": SecretError,
+               "ZeroDivisionError": ZeroDivisionError, "SecretError": SecretError, "TypeError": TypeError,
                "AttributeError": AttributeError, "OSError": OSError}[out[1]]
         raise exc(out[2])
     raise AssertionError(out)
@@ -90,13 +92,14 @@ def _raise_for(out):
 def _make_fn(name, sig, is_async, body_name):
     params = ["self"] + list(sig["required"]) + ["%s=None" % p for p in sig["optional"]]
     if sig["uid"]:
-        params.append("call_unique_id=None")
+        params.append("*, call_unique_id=None" if sig.get("uid_kwonly") else "call_unique_id=None")
     if sig["varkw"]:
         params.append("**kwargs")
     collect = "dict(%s)" % ", ".join("%s=%s" % (p, p) for p in list(sig["required"]) + list(sig["optional"]))
     src = "%sdef %s(%s):\n" % ("async " if is_async else "", name, ", ".join(params))
     if is_async:
         src += "    await _ov_sleep(self, %r)\n" % name
+        src += "    await _ov_hookcall(self, %r)\n" % name
     src += "    __kw = %s\n" % collect
     if sig["varkw"]:
         src += "    __kw.update(kwargs)\n"
@@ -145,8 +148,24 @@ def make_cp_class(version, routes):
         if d:
             await asyncio.sleep(d)
 
+    async def _ov_hookcall(self, name):
+        """an after-hook that issues its own request (what the library schedules hooks as tasks for)"""
+        if self._ov_specs[name].get("calls"):
+            from ocpp.v16 import call as c16
+            from ocpp.v201 import call as c201
+            mod = c16 if self._ocpp_version == "1.6" else c201
+            self._ov_rec.log("hook-call-start", name)
+            try:
+                await self.call(mod.Heartbeat())
+            except BaseException as e:  # noqa: BLE001
+                self._ov_rec.log("hook-call-done", name, type(e).__name__)
+                if not isinstance(e, Exception):
+                    raise
+            else:
+                self._ov_rec.log("hook-call-done", name, "ok")
+
     specs = {}
-    env = {"_on_body": _on_body, "_after_body": _after_body, "_ov_sleep": _ov_sleep}
+    env = {"_on_body": _on_body, "_after_body": _after_body, "_ov_sleep": _ov_sleep, "_ov_hookcall": _ov_hookcall}
     for r in routes:
         order = (("after", after), ("on", on)) if r.get("after_first") else (("on", on), ("after", after))
         for kind, deco in order:
@@ -168,14 +187,18 @@ def make_cp_class(version, routes):
     return cls
 
 
-def observe_frame(version, routes, raw, async_validation=False, settle=3, send_ok=True, cls=None):
+def observe_frame(version, routes, raw, async_validation=False, settle=3, send_ok=True, cls=None, prelude=None):
     """Run one route_message(raw) on a fresh endpoint; return the ordered observation."""
     import ocpp.messages as M
 
     rec = Recorder()
     conn = Conn(rec, fail_sends=None if send_ok else {0})
+    if prelude:
+        make_cp_class(version, prelude)       # another endpoint class, defined earlier in the process, never used
     if cls is None:
         cls = make_cp_class(version, routes)
+    if prelude and prelude[0].get("defined_after"):
+        make_cp_class(version, prelude)       # ... or defined later
     old = M.ASYNC_VALIDATION
     M.ASYNC_VALIDATION = async_validation
 
@@ -208,7 +231,8 @@ class ScriptedClose(Exception):
     """stands for websockets' ConnectionClosed"""
 
 
-def observe_loop(version, routes, frames, exc_kind="closed", gate_held=False, async_validation=False, response_timeout=30):
+def observe_loop(version, routes, frames, exc_kind="closed", gate_held=False, async_validation=False, response_timeout=30,
+                 linger=0):
     """Run the real start() on a scripted connection until recv raises; return the ordered
     recv/send/handler log and how start() ended."""
     import ocpp.messages as M
@@ -217,6 +241,7 @@ def observe_loop(version, routes, frames, exc_kind="closed", gate_held=False, as
     exc = {"closed": ScriptedClose("gone"), "oserror": OSError("reset"),
            "cancelled": asyncio.CancelledError(), "eof": EOFError()}[exc_kind]
     conn = Conn(rec, frames=frames, recv_exc=exc)
+    conn.linger = linger
     cls = make_cp_class(version, routes)
     old = M.ASYNC_VALIDATION
     M.ASYNC_VALIDATION = async_validation
